@@ -47,6 +47,13 @@ def generate(seed, tier="quick", faults=True, **kw):
         files.append({"path": p, "lines": GC.gen_lines(r, ctx, secrets, o, r.randint(0, 14))})
         if o["ip"] and r.random() < 0.25:
             files[-1]["lines"].insert(r.randint(0, len(files[-1]["lines"])), GC.directed_line(r))
+        if o["ip"] and r.random() < 0.15:
+            # an IPv6 token with a dotted-quad tail: how it is tokenised is C06's (not applicable) subject; here it only
+            # has to be the same in every execution and must not put addresses into the map that no input contains
+            tok = r.choice(["64:ff9b::", "::ffff:", "2001:db8::", "2001:db8:a:b::"]) + "%d.%d.%d.%d" % (
+                r.choice([23, 100, 198, 203]), r.randint(0, 255), r.randint(0, 255), r.randint(1, 254))
+            files[-1]["lines"].insert(r.randint(0, len(files[-1]["lines"])),
+                                      {"segs": [["lit", "ipv6 route "], ["x6", tok], ["lit", " null0"]], "eol": "\n"})
     for p in hidden:
         files.append({"path": p, "lines": GC.gen_lines(r, ctx, secrets, o, r.randint(1, 3)), "hidden": True})
     xdisk = {"dirs": list(dirs), "files": {}}
@@ -631,6 +638,35 @@ def _check_dump(viol, plan, S1, mirror, visible, status, progress, texts, handed
         d[a] = b
         imgs[b] = a
     o = plan["opts"]
+    # every listed original must occur in some input (in any spelling) or be a /32 seed (or its one-bit sibling)
+    seen4, seen6 = set(), set()
+    for pth, data in S1["files"].items():
+        if not (pth == plan["in"] or pth.startswith("in/")):
+            continue
+        text = data.decode("utf-8", "replace")
+        for m in re.finditer(r"[0-9]+(?:\.[0-9]+){3}", text):
+            octs = [int(x) for x in m.group(0).split(".")]
+            if all(x <= 255 for x in octs):
+                seen4.add(ipaddress.IPv4Address(".".join(str(x) for x in octs)))
+        for m in re.finditer(r"[0-9A-Fa-f:]*:[0-9A-Fa-f:]*", text):
+            run = m.group(0)
+            for cand in {run, run.rstrip(":"), run.lstrip(":")}:
+                try:
+                    seen6.add(ipaddress.IPv6Address(cand))
+                except ValueError:
+                    pass
+    for n in (o.get("pp") or []) + (o.get("pa") or []):
+        net = ipaddress.ip_network(n)
+        if net.prefixlen == 32:
+            seen4.add(net.network_address)
+            seen4.add(ipaddress.IPv4Address(int(net.network_address) ^ 1))
+    # the dotted-quad tail of an x6 token can leave a never-seen IPv4 token behind today (C06's defect): with such
+    # tokens in the plan only the IPv6 originals are judged
+    has_x6 = any(s[0] == "x6" for f in plan["files"] for ln in f["lines"] for s in ln["segs"])
+    for a in sorted(d, key=str):
+        if (a.version == 4 and not has_x6 and a not in seen4) or (a.version == 6 and a not in seen6):
+            viol("C17", "dump-lists-unseen-address", "the map lists %s -> %s, but no input file contains %s" % (a, d[a], a))
+            break
     lit_ws = o["pwd"] or bool(o["words"])
     files = {f["path"]: f for f in plan["files"]}
     for p in visible:
